@@ -213,7 +213,83 @@ def _loop_spec(engine, fr, s):
     return engine.cfg.loops.get((fr.func.qualname, ordinal)) or engine.cfg.loops.get((fr.func.qualname.split(".")[-1], ordinal)) or LoopSpec(), ordinal
 
 
+_ROLE_CACHE = {}
+
+
+def role_name(func_node, role, default=None):
+    """Names of locals by their ROLE in the function (so that contracts survive a renamed temporary):
+       $none#k  the k-th distinct local initialised to the constant None     $list#k  ... initialised to [] / list()
+       $call:F  the first local assigned from a call of F (Name or attribute)  $param#k  the k-th parameter
+    Returns `default` when the role cannot be resolved."""
+    key = (id(func_node), role)
+    if key in _ROLE_CACHE:
+        return _ROLE_CACHE[key] or default
+    out = None
+    assigns = sorted([n for n in ast.walk(func_node) if isinstance(n, ast.Assign) and len(n.targets) == 1 and isinstance(n.targets[0], ast.Name)],
+                     key=lambda n: (n.lineno, n.col_offset))
+    if role.startswith("$arg#"):
+        k = int(role.split("#")[1])
+        ps = [a.arg for a in func_node.args.args]
+        if ps and ps[0] in ("self", "cls"):
+            ps = ps[1:]
+        out = ps[k] if k < len(ps) else None
+    elif role.startswith("$param#"):
+        k = int(role.split("#")[1])
+        ps = [a.arg for a in func_node.args.args]
+        out = ps[k] if k < len(ps) else None
+    elif role.startswith("$none#") or role.startswith("$list#"):
+        k = int(role.split("#")[1])
+        seen = []
+        for n in assigns:
+            v = n.value
+            isnone = isinstance(v, ast.Constant) and v.value is None
+            islist = (isinstance(v, ast.List) and not v.elts) or (isinstance(v, ast.Call) and isinstance(v.func, ast.Name) and v.func.id == "list" and not v.args)
+            if (role.startswith("$none#") and isnone) or (role.startswith("$list#") and islist):
+                if n.targets[0].id not in seen:
+                    seen.append(n.targets[0].id)
+        out = seen[k] if k < len(seen) else None
+    elif role.startswith("$except#"):
+        k = int(role.split("#")[1])
+        hs = sorted([n for n in ast.walk(func_node) if isinstance(n, ast.ExceptHandler) and n.name], key=lambda n: (n.lineno, n.col_offset))
+        out = hs[k].name if k < len(hs) else None
+    elif role.startswith("$for#"):
+        k = int(role.split("#")[1])
+        fors = sorted([n for n in ast.walk(func_node) if isinstance(n, ast.For)], key=lambda n: (n.lineno, n.col_offset))
+        if k < len(fors):
+            t = fors[k].target
+            names = [x.id for x in ast.walk(t) if isinstance(x, ast.Name)]
+            out = names[-1] if names else None          # `for idx, job in enumerate(...)`: the element
+    elif role.startswith("$unpack:"):
+        # "$unpack:F#i": the i-th name of a tuple assigned from a call of F
+        f, _, i = role.split(":", 1)[1].partition("#")
+        for n in sorted([n for n in ast.walk(func_node) if isinstance(n, ast.Assign)], key=lambda n: (n.lineno, n.col_offset)):
+            v, t = n.value, n.targets[0]
+            if isinstance(t, ast.Tuple) and isinstance(v, ast.Call) and ((isinstance(v.func, ast.Name) and v.func.id == f) or (isinstance(v.func, ast.Attribute) and v.func.attr == f)):
+                names = [x.id for x in t.elts if isinstance(x, ast.Name)]
+                if int(i or 0) < len(names):
+                    out = names[int(i or 0)]
+                break
+    elif role.startswith("$call:"):
+        f = role.split(":", 1)[1]
+        for n in assigns:
+            v = n.value
+            if isinstance(v, ast.Call) and ((isinstance(v.func, ast.Name) and v.func.id == f) or (isinstance(v.func, ast.Attribute) and v.func.attr == f)):
+                out = n.targets[0].id
+                break
+    _ROLE_CACHE[key] = out
+    return out or default
+
+
 def _havoc_locals(engine, st, fr, names, keep, local_types=None):
+    if local_types and any(k.startswith("$") for k in local_types):
+        lt = {}
+        for k, v in local_types.items():
+            if k.startswith("$"):
+                role, _, dflt = k.partition("|")
+                k = role_name(fr.func.node, role, dflt or None)
+            if k:
+                lt[k] = v
+        local_types = lt
     for nme in names:
         if nme in keep:
             continue
